@@ -387,8 +387,9 @@ def check_C08(ck):
         names = []
         state = rng.getstate()
         for style in gen.STYLES:
-            r2 = random.Random(repr((ck.seed, i)))  # same calls in every presentation
-            lines, meta = gen.emit_script(r2, reg, pol, style=style, ids=ids, shuffle=False, callnext=True)
+            r2 = random.Random(repr((ck.seed, i, style)))
+            r3 = random.Random(repr((ck.seed, i)))  # the same calls in every presentation
+            lines, meta = gen.emit_script(r2, reg, pol, style=style, ids=ids, shuffle=False, callnext=True, call_rng=r3)
             nm = "p%d-%s-%s-%s" % (i, pol, reg.family, style)
             scripts.append((nm, lines))
             names.append(nm)
